@@ -85,6 +85,27 @@ impl<TC: ModelCfg> Server<TC> {
         out
     }
 
+    /// forged absences of `q` in which the queried label keeps its value but claims a SHORTER length (the
+    /// length of the anchor, or one more), anchored at each real ancestor with its real children
+    pub async fn forged_absences_truncated_label(&self, q: NodeLabel) -> Vec<(String, NonMembershipProof)> {
+        let mut out = vec![];
+        for (depth, f) in self.forged_absences(q).await {
+            let alen = f.longest_prefix.label_len;
+            for newlen in [alen, alen + 1, 255u32, 0] {
+                if newlen >= 256 {
+                    continue;
+                }
+                let mut g = f.clone();
+                g.label = NodeLabel::new(q.label_val, newlen);
+                out.push((format!("anchor_depth_{depth}_label_len_{}", if newlen == alen { "of_anchor".to_string() } else if newlen == alen + 1 { "of_anchor_plus_1".to_string() } else { newlen.to_string() }), g.clone()));
+                // the same with the canonical (zero-padded) value of the shortened label
+                g.label = NodeLabel::new(q.label_val, 256).get_prefix(newlen);
+                out.push((format!("anchor_depth_{depth}_label_prefix_{}", newlen), g));
+            }
+        }
+        out
+    }
+
     /// every forged absence of `q`: each real ancestor as claimed longest prefix with its real children
     pub async fn forged_absences(&self, q: NodeLabel) -> Vec<(usize, NonMembershipProof)> {
         let qb = nl_bits(&q);
@@ -211,6 +232,9 @@ impl<'r, TC: ModelCfg> HistVisitor<TC> for V6<'r> {
                     if v < n {
                         for (i, f) in srv.forged_absences_off_path(stale_v).await.into_iter().enumerate() {
                             fresh_opts.push((format!("off_path_anchor_{i}"), f));
+                        }
+                        for (name, f) in srv.forged_absences_truncated_label(stale_v).await {
+                            fresh_opts.push((name, f));
                         }
                     }
                     for (fname, f) in fresh_opts {
